@@ -1074,7 +1074,14 @@ class Engine:
         es = [node.func] + list(node.args) + [k.value for k in node.keywords]
         if not hasattr(self, "direct_gens"):
             self.direct_gens = set()
-        self.direct_gens.update(id(a) for a in node.args if isinstance(a, ast.GeneratorExp))
+        # a generator expression written as the argument of a builtin that consumes its argument on the spot (sum, any, "".join, ...)
+        # is computed there; handed to anything else it is a generator object like any other
+        fn = node.func
+        consumer = (isinstance(fn, ast.Name) and fn.id in ("sum", "any", "all", "list", "tuple", "sorted", "max", "min", "set", "dict",
+                                                          "frozenset", "bytes", "bytearray", "len")) \
+            or (isinstance(fn, ast.Attribute) and fn.attr in ("join", "extend", "update"))
+        if consumer:
+            self.direct_gens.update(id(a) for a in node.args if isinstance(a, ast.GeneratorExp))
         for s, vals in self.evs(es, st):
             if isinstance(vals, RaiseExc):
                 outs.append((s, vals))
